@@ -231,7 +231,8 @@ PROPS["C15"]["probes"] = dict(FAULT_PROBES, **{fn: ["readfaults"] for fn in ["St
 PROPS["C15"]["verus"]["readers"] = ["StringRef::read", "ColumnType::read_value", "Timestamp::read_from", "PropertyValue::read", "StringPoolBuilder::read_from_pool",
                                     "StringPoolBuilder::build_from_data", "PropertySet::read"]
 PROPS["C15"]["verus"]["rows"] = ["Table::read_rows"]
-PROPS["C09"]["probes"] = {"StringPoolBuilder::build_from_data": ["zerorc"], "StringPool::decref": ["dangling"], "ValueRef::remove": ["dangling"]}
+PROPS["C09"]["verus"]["opencat"] = ["Package::vx_open_tables_row", "Package::vx_open_columns_row_name", "Package::vx_open_columns_row_cells", "Value::as_str", "Value::as_int"]
+PROPS["C09"]["probes"] = {"Package::vx_open_tables_row": ["catalognull"], "Package::vx_open_columns_row_name": ["catalognull"], "Package::vx_open_columns_row_cells": ["catalognull"], "StringPoolBuilder::build_from_data": ["zerorc"], "StringPool::decref": ["dangling"], "ValueRef::remove": ["dangling"]}
 PROPS["C08"]["probes"] = {"StringPool::decref": ["dangling"], "ValueRef::remove": ["dangling"]}
 PROPS["C02"]["probes"] = {"StringPoolBuilder::build_from_data": ["zerorc"]}
 PROPS["C07"]["probes"] = {"Category::validate": ["category"]}
